@@ -28,7 +28,8 @@ type twinBlock struct {
 }
 
 type twinFile struct {
-	AppState []byte      `json:"app_state"`
+	AppState []byte                 `json:"app_state"`
+	AppOpts  map[string]interface{} `json:"app_opts,omitempty"`
 	Blocks   []twinBlock `json:"blocks"`
 }
 
@@ -38,7 +39,7 @@ func RunTwin(res *RunResult) (string, bool) {
 	if len(res.BlockLog) == 0 || res.Halted != "" {
 		return "", false
 	}
-	tf := twinFile{AppState: res.AppState}
+	tf := twinFile{AppState: res.AppState, AppOpts: appOptsOf(&res.Trace.Knobs)}
 	for _, b := range res.BlockLog {
 		tf.Blocks = append(tf.Blocks, twinBlock{Height: b.Height, TimeS: b.Time.Unix(), TimeNs: int64(b.Time.Nanosecond()), Txs: b.Txs, Res: b.Res, AppHash: b.AppHash})
 	}
@@ -90,7 +91,7 @@ func twinMain(path, dir string) {
 		return
 	}
 	defer db.Close()
-	n := &Node{Idx: 99, Cfg: NodeCfg{Pruning: "everything", IAVLCache: 16, NoFastNode: true}, DB: db}
+	n := &Node{Idx: 99, Cfg: NodeCfg{Pruning: "everything", IAVLCache: 16, NoFastNode: true}, DB: db, AppOpts: tf.AppOpts}
 	n.Open()
 	n.App.InitChain(InitChainReq(tf.AppState))
 	var prev []byte
